@@ -952,3 +952,42 @@ func isFullIndexLoopOver(idx, base ssa.Value) bool {
 	}
 	return false
 }
+
+// throughParams follows a value backwards through parameters bound at exactly one call site, local cells with a
+// single store and type-only conversions - without flattening phis (the caller wants to see the join itself).
+func (P *Program) throughParams(v ssa.Value) ssa.Value {
+	for i := 0; i < 12; i++ {
+		switch x := v.(type) {
+		case *ssa.Parameter:
+			args := P.paramArgs(x)
+			if len(args) != 1 {
+				return v
+			}
+			v = args[0]
+		case *ssa.FreeVar:
+			b := P.freeVarBinding(x)
+			if b == nil {
+				return v
+			}
+			v = b
+		case *ssa.ChangeType:
+			v = x.X
+		case *ssa.UnOp:
+			if x.Op != token.MUL {
+				return v
+			}
+			cell := P.cellOf(x.X)
+			if cell == nil {
+				return v
+			}
+			vals, _, escaped := P.CellStores(cell)
+			if escaped || len(vals) != 1 {
+				return v
+			}
+			v = vals[0]
+		default:
+			return v
+		}
+	}
+	return v
+}
